@@ -399,6 +399,13 @@ class CertLaw(Law):
             la, lb = a.leaves(), b.leaves()
             self.goals.append((list(zip(la, lb)), '%s == %s' % (a.spec, b.spec)))
 
+    def render_assumed(self, home):
+        """statement only (external_body): header of the struct-level lemma `law_<name>` as render() prints it"""
+        pa, _ = self.render()
+        i = pa.index('pub proof fn law_%s(' % self.name)
+        j = pa.index('\n{\n', i)
+        return '#[verifier::external_body] // ASSUMED-CONTRACT (law proved in unit %s)\n%s\n{\n}\n' % (home, pa[i:j])
+
     def to_views(self, flat):
         m = dict(self.atoms())
         return _re.sub(r'[A-Za-z_][A-Za-z0-9_]*', lambda mo: m.get(mo.group(0), mo.group(0)), flat)
